@@ -433,7 +433,7 @@ func TestVerifC13Kernel(t *testing.T) {
 	if ev.Thorough() {
 		depth = 7
 	}
-	r.Rule(fmt.Sprintf("REAL PolicyRoute.Setup/Teardown against the running kernel in private network namespaces (an 'ENI' is one end of a veth pair), for family in {v4, v6, dual}: every event sequence of length <=%d over {setup(A on eni1), setup(B on eni1), setup(C on eni2) where C re-uses A's addresses, teardown(A|B|C), sandbox-gone(A|B|C) = generic link cleanup without the datapath teardown} that the CNI contract and the IPAM allow; after every event, for every pod that is up and every enabled family: the kernel's own FIB (netlink RouteGet) delivers traffic for its address to its host veth; traffic sourced from it leaves by the ENI of its latest setup via the gateway, decided both by the reference FIB over the kernel's rule and route dump and by the kernel's forwarding lookup (route get from <pod> iif <veth>); exactly one from-pod rule exists for the address; the pod namespace has exactly one default route per enabled family and none for a disabled one; after teardown(p) no rule, route or link of p is left in the host namespace and, by the same per-event lookups, nothing of another pod was removed", depth))
+	r.Rule(fmt.Sprintf("REAL PolicyRoute.Setup/Teardown against the running kernel in private network namespaces (an 'ENI' is one end of a veth pair), for family in {v4, v6, dual}: every event sequence of length <=%d over {setup(A on eni1), setup(B on eni1), setup(C on eni2) where C re-uses A's addresses, teardown(A|B|C), teardown with an unresolvable ENI (interface index 0) for A and C, sandbox-gone(A|B|C) = generic link cleanup without the datapath teardown} that the CNI contract and the IPAM allow; after every event, for every pod that is up and every enabled family: the kernel's own FIB (netlink RouteGet) delivers traffic for its address to its host veth; traffic sourced from it leaves by the ENI of its latest setup via the gateway, decided both by the reference FIB over the kernel's rule and route dump and by the kernel's forwarding lookup (route get from <pod> iif <veth>); exactly one from-pod rule exists for the address; the pod namespace has exactly one default route per enabled family and none for a disabled one; after teardown(p) no rule, route or link of p is left in the host namespace and, by the same per-event lookups, nothing of another pod was removed", depth))
 	if os.Geteuid() != 0 {
 		r.NotExhaustive()
 		r.Set("skipped", "not root")
@@ -441,7 +441,8 @@ func TestVerifC13Kernel(t *testing.T) {
 	}
 	runtime.LockOSThread()
 	defer runtime.UnlockOSThread()
-	events := []string{"setup:A", "setup:B", "setup:C", "teardown:A", "teardown:B", "teardown:C", "gone:A", "gone:B", "gone:C"}
+	events := []string{"setup:A", "setup:B", "setup:C", "teardown:A", "teardown:B", "teardown:C", "teardown0:A", "teardown0:C", "gone:A", "gone:B", "gone:C"}
+	// (teardown0 = the DEL arrives when the ENI can no longer be resolved: the plugin passes interface index 0)
 	// the environment is closed by what the CNI contract and the IPAM allow: one ADD per sandbox until its DEL (or
 	// its disappearance), an address is never handed to a second pod while the first still runs, and a DEL of a
 	// sandbox that already disappeared and whose address meanwhile belongs to another pod carries no datapath
@@ -453,7 +454,7 @@ func TestVerifC13Kernel(t *testing.T) {
 		switch f[0] {
 		case "setup":
 			return "up", cs != "up" && ps != "up"
-		case "teardown":
+		case "teardown", "teardown0":
 			return "", cs == "up" || (cs == "gone" && ps != "up")
 		default:
 			return "gone", cs == "up"
@@ -509,8 +510,12 @@ func TestVerifC13Kernel(t *testing.T) {
 							continue
 						}
 						p.up, p.eni, p.leaked = true, en, false
-					case "teardown":
-						if err := d.Teardown(ctx, &types.TeardownCfg{HostVETHName: p.veth, ContainerIPNet: p.ipset(fam), ENIIndex: enis[p.eni].Attrs().Index}, p.nsp); err != nil {
+					case "teardown", "teardown0":
+						idx := enis[p.eni].Attrs().Index
+						if f[0] == "teardown0" {
+							idx = 0
+						}
+						if err := d.Teardown(ctx, &types.TeardownCfg{HostVETHName: p.veth, ContainerIPNet: p.ipset(fam), ENIIndex: idx}, p.nsp); err != nil {
 							r.Violate("C13/kernel/teardown-error", fmt.Sprintf("history %s: teardown(%s): %v", hist, p.name, err), rp)
 						}
 						_ = utils.GenericTearDown(ctx, p.nsp)
